@@ -25,10 +25,16 @@ Definition jrow_meets (o : sop) (e : jrow) : Prop :=
   forall args, typed (jargs e) args -> in_dom o args = true -> fits_java o args ->
                jsem args (jbody e) = Some (spec o args).
 
+(* the back end says itself that it does not support the builtin: GJ_NotImpl in the table
+   (a compile-time refusal) or a foamj.Math method that only throws (a loud run-time failure);
+   never a wrong value *)
+Definition junsupported (e : jexp) : bool :=
+  match e with JNotImpl | JThrows _ => true | _ => false end.
+
 Definition jrow_ok (e : jrow) : Prop :=
   match sop_of (jname e) with
   | None => True                      (* not in the specified class *)
-  | Some o => jrow_meets o e
+  | Some o => junsupported (jbody e) = true \/ jrow_meets o e
   end.
 
 Definition java_meets_spec (bad : list string) (tbl : list jrow) : Prop :=
@@ -173,7 +179,10 @@ Lemma jrow_ok_none e : sop_of (jname e) = None -> jrow_ok e.
 Proof. unfold jrow_ok. intros ->. exact I. Qed.
 
 Lemma jrow_ok_some e o : sop_of (jname e) = Some o -> jrow_meets o e -> jrow_ok e.
-Proof. unfold jrow_ok. intros ->. exact (fun H => H). Qed.
+Proof. unfold jrow_ok. intros ->. intro H. right. exact H. Qed.
+
+Lemma jrow_ok_unsupported e : junsupported (jbody e) = true -> jrow_ok e.
+Proof. unfold jrow_ok. intro H. destruct (sop_of (jname e)); [left; exact H|exact I]. Qed.
 
 Ltac inv_fits H :=
   repeat match type of H with
@@ -215,19 +224,65 @@ Fixpoint jlookup (n : string) (t : list jrow) : option jrow :=
   end.
 
 Definition is_opaque (e : jexp) : bool := match e with JOpaque _ => true | _ => false end.
-Definition is_notimpl (e : jexp) : bool := match e with JNotImpl => true | _ => false end.
 
+(* a specified builtin has a row, and the row embeds (it may say `unsupported') *)
 Definition jcovered (tbl : list jrow) (n : string) : bool :=
   match sop_of n with
   | Some _ => match jlookup n tbl with
-              | Some r => negb (is_opaque (jbody r)) && negb (is_notimpl (jbody r))
+              | Some r => negb (is_opaque (jbody r))
               | None => false
               end
   | None => true
   end.
+
+(* the specified builtins the Java route does not support, by its own account *)
+Definition junsupported_names (tbl : list jrow) : list string :=
+  map jname (filter (fun r => specd_j r && junsupported (jbody r)) tbl).
 
 Definition java_covers (tbl : list jrow) (names : list string) : Prop :=
   Forall (fun n => jcovered tbl n = true) names.
 
 Lemma java_covers_of_b tbl names : forallb (jcovered tbl) names = true -> java_covers tbl names.
 Proof. unfold java_covers. rewrite Forall_forall, forallb_forall. auto. Qed.
+
+(* ------------------------------------------------------------------ using the table theorem *)
+
+Lemma jrow_meets_use e o args :
+  jrow_ok e -> sop_of (jname e) = Some o -> junsupported (jbody e) = false ->
+  typed (fst (sop_sig o)) args -> in_dom o args = true -> fits_java o args ->
+  jsem args (jbody e) = Some (spec o args).
+Proof.
+  unfold jrow_ok. intros H Ho Hu Ht Hd Hf. rewrite Ho in H.
+  destruct H as [H|[Hs H]]; [congruence|].
+  apply H; try assumption.
+  unfold jrow_sig_ok in Hs. apply andb_true_iff in Hs as [Hs _]. apply andb_true_iff in Hs as [Hs _].
+  apply ftys_eqb_eq in Hs. rewrite Hs. assumption.
+Qed.
+
+Lemma java_row_spec bad t e o args :
+  java_meets_spec bad t -> In e t -> ~ In (jname e) bad -> sop_of (jname e) = Some o ->
+  junsupported (jbody e) = false ->
+  typed (fst (sop_sig o)) args -> in_dom o args = true -> fits_java o args ->
+  jsem args (jbody e) = Some (spec o args).
+Proof.
+  intros H He Hb Ho Hu Ht Hd Hf. unfold java_meets_spec in H. rewrite Forall_forall in H.
+  destruct (H e He) as [K|K]; [contradiction|].
+  eapply jrow_meets_use; eassumption.
+Qed.
+
+(* Java and the interpreter: both give the mathematical value, hence the same value *)
+Lemma java_interp_agree_gen badj badi jt fi n o ej ei args :
+  java_meets_spec badj jt -> meets_spec badi fi ->
+  sop_of n = Some o ->
+  In ej jt -> jname ej = n -> ~ In n badj -> junsupported (jbody ej) = false ->
+  In ei fi -> rname ei = n -> ~ In n badi ->
+  typed (fst (sop_sig o)) args -> in_dom o args = true -> fits_java o args ->
+  jsem args (jbody ej) = sem args (rexp ei).
+Proof.
+  intros Hj Hi Ho Hej Hnj Hbj Hu Hei Hni Hbi Ht Hd Hf. subst n.
+  transitivity (Some (spec o args)); [|symmetry].
+  - eapply java_row_spec; eauto.
+  - unfold meets_spec in Hi. rewrite Forall_forall in Hi.
+    destruct (Hi ei Hei) as [K|K]; [rewrite Hni in K; contradiction|].
+    eapply row_meets_use; [exact K|rewrite Hni; exact Ho|assumption|assumption].
+Qed.
